@@ -187,7 +187,7 @@ def observe_all(im):
                     if not s.is_enzyme() and o.volume > 0:
                         d['get_concentration M ' + s.name] = [float(o.get_concentration(s, 'M'))]
             else:
-                for u in ('uL', 'mL', 'L'):
+                for u in ('uL', 'mL', 'L', 'kL', 'ML'):
                     d['get_volumes ' + u] = [float(x) for x in numpy.asarray(o.get_volumes(unit=u)).flatten()]
                     d['row get_volumes ' + u] = [float(x) for x in numpy.asarray(o[1, :].get_volumes(unit=u)).flatten()]
                     d['get_volume ' + u] = [float(o.get_volume(u))]
